@@ -148,6 +148,8 @@ def gen_lock(rng, hist, bracketed=True):
                 lines.append("alloc %d %d" % (pick_size(rng, narena) // 4, pick_align(rng)))
             elif r < 0.90:
                 lines.append("num %d" % (pick_size(rng, narena) // 32))
+            elif bracketed:
+                lines.append(rng.choice(("mark", "free")))       # no-ops under the lock
             else:
                 lines.append(rng.choice(("mark", "free", "arena %d %d" % (pick_size(rng, narena) // 8, pick_align(rng)))))
         lines.append("unlock")
@@ -295,6 +297,9 @@ def oracle_stream(lines, outs):
             continue
         if q is None or q.tainted:
             continue
+        if o.startswith("over-reserved"):
+            q.tainted = True               # not called by the harness (see c19_arena.c); nothing to judge
+            continue
         try:
             res, sttxt = o.split(" | ")
             st, use = parse_state(sttxt)
@@ -314,6 +319,8 @@ def oracle_stream(lines, outs):
             # mju_dispatch does) the mjData is over-reserved and nothing is claimed about further calls
             if op in ("lock", "unlock"):
                 q.locked = op == "lock"
+            elif op == "arena":
+                q.tainted = True           # the arena check reads the over-reserved pstack
             elif op == "free" and not q.locked and len(q.frames) > 1:
                 f = q.frames[-1]
                 if res != "ok" or st != (f["pstack"], prev[1], f["pbase"], prev[3]):
@@ -495,9 +502,10 @@ def oracle_stream(lines, outs):
 
 
 def classify(fail):
-    for k, v in (("overlaps", "overlap"), ("not inside", "out-of-bounds"), ("inside the arena-allocated", "out-of-bounds"),
+    for k, v in (("although", "exhaustion-misreported"), ("overlaps", "overlap"), ("not inside", "out-of-bounds"),
+                 ("inside the arena-allocated", "out-of-bounds"),
                  ("aligned", "misaligned"), ("next multiple", "misaligned"), ("restore", "pstack-not-restored"),
-                 ("return with the stack pointer", "pstack-not-restored"), ("although", "exhaustion-misreported"),
+                 ("return with the stack pointer", "pstack-not-restored"),
                  ("state changed", "state-changed-on-failure"), ("no-op", "noop-violated"), ("NULL for", "exhaustion-misreported"),
                  ("granted", "reservation"), ("reservation", "reservation")):
         if k in fail:
